@@ -539,6 +539,11 @@ where
                     err.insert(Value::Null, ctx);
                     value
                 }
+                // `abort` and `return` are control flow, not errors: they are not captured.
+                Err(
+                    error @ (crate::compiler::ExpressionError::Abort { .. }
+                    | crate::compiler::ExpressionError::Return { .. }),
+                ) => return Err(error),
                 Err(error) => {
                     ok.insert(default.clone(), ctx);
                     let value = Value::from(error.to_string());
